@@ -519,7 +519,25 @@ def rules_c11(ctx):
                         if eff in ('!=', '>'):
                             return False
                 return None
-            if ts == ('lit', 0):
+            if ts == ('lit', 1):
+                # `return true` under a comparison of one stored element with key proves membership - provided the element exists.
+                # search(key).pos and .hi can be n (for keys above the last one): reading begin()[pos] then reads *end().
+                deps = [(strip_cast(f.term(g.cond(b), inline=True)), lab) for (b, lab) in g.transitive_control_deps(f.block_of(r)[0]) if g.cond(b) and g.blocks[b].get('term_c') == 'IfStmt']
+                SRCH = ('call', 'pgm::PGMIndex::search', (KEY,), THIS)
+                for (ct, lab) in deps:
+                    if lab is True and ct[0] == 'op' and ct[1] == '==' and len(ct) == 4 and KEY in (strip_cast(ct[2]), strip_cast(ct[3])):
+                        el = strip_cast(ct[3]) if strip_cast(ct[2]) == KEY else strip_cast(ct[2])
+                        idx = None
+                        if el[0] == 'index' and strip_cast(el[1]) == ('call', M + '::begin', (), THIS):
+                            idx = strip_cast(el[2])
+                        elif el[0] == 'deref' and strip_cast(el[1])[0] == 'op' and strip_cast(el[1])[1] == '+' and strip_cast(strip_cast(el[1])[2]) == ('call', M + '::begin', (), THIS):
+                            idx = strip_cast(strip_cast(el[1])[3])
+                        if idx is not None and idx[0] == 'field' and idx[1] in ('pos', 'hi') and strip_cast(idx[2]) == SRCH:
+                            bounded = any(any(x[0] == 'call' and x[1] in (M + '::size', M + '::end') for x in _subs(c2)) or any(x == ('field', 'n', THIS) for x in _subs(c2)) for (c2, l2) in deps if c2 is not ct)
+                            if not bounded:
+                                st, why = VIOLATED, f"`{fmt_term(ct)[:70]}` reads the element at search(key).{idx[1]}, which is n for a key above the last one: the element does not exist"
+                            break
+            elif ts == ('lit', 0):
                 # `return false` only where the position is the end of the searched range
                 deps = [(strip_cast(f.term(g.cond(b), inline=True)), lab) for (b, lab) in g.transitive_control_deps(f.block_of(r)[0]) if g.cond(b) and g.blocks[b].get('term_c') == 'IfStmt']
                 good = False
